@@ -272,11 +272,19 @@ func checkC19(c *Ctx) {
 						libText := strings.Join(lib, eol) + eol
 						// inputs may share a file name (AddTemplateString takes any name, also none): the
 						// position is still a position in the text that defines the entry template.
-						for naming := 0; naming < 4; naming++ {
+						entry0, libText0 := entry, libText
+						for naming := 0; naming < 6; naming++ {
 							if naming > 0 && !(pad%3 == 0 && (wrap == "plain" || wrap == "if")) {
 								continue
 							}
 							entryName, libName, entryFirst := "app/entry.soy", "lib/library.soy", false
+							entry, libText := entry0, libText0
+							if naming >= 4 {
+								// one namespace spread over two files (the library file first, or the entry file first)
+								entry = strings.ReplaceAll(entry0, "r.lib.", "r.entry.")
+								libText = strings.Replace(libText0, "{namespace r.lib}", "{namespace r.entry}", 1)
+								entryFirst = naming == 5
+							}
 							switch naming {
 							case 1:
 								entryName, libName = "shared.soy", "shared.soy"
@@ -305,8 +313,10 @@ func checkC19(c *Ctx) {
 							cs := c19case{Kind: "render", File: entryName, Files: map[string]string{"entry: " + entryName: entry, "library: " + libName: libText}, Fault: bad + fmt.Sprintf(" at call depth %d in %s", depth, wrap), Line: ok[len(ok)-1], EOL: fmt.Sprintf("%q", eol)}
 							key := fmt.Sprintf("r|%q|%d|%d|%s|%d|%d", eol, depth, pad, wrap, bi, naming)
 							sig := fmt.Sprintf("depth %d:%s:%q", depth, wrap, eol)
-							if naming > 0 {
+							if naming > 0 && naming < 4 {
 								sig += fmt.Sprintf(":inputs named %q and %q", entryName, libName)
+							} else if naming >= 4 {
+								sig += ":one namespace in two files"
 							}
 							switch {
 							case v.Panic != nil || v.Exhausted:
